@@ -1,6 +1,6 @@
 (* C14 — Encoding then decoding returns an equal value and consumes exactly its bytes (native codec).
    Statement file. `rs` is the app registry (which app definitions resolve to which StateApp). *)
-From V Require Import Model.Msgs Proofs.WireP Proofs.ChannelP Proofs.CodecP.
+From V Require Import Model.Msgs Proofs.WireP Proofs.ChannelP Proofs.CodecP Proofs.StreamP.
 
 (* every well-formed envelope (all 17 message types): decoding its encoding followed by ANY further
    bytes yields exactly the envelope and leaves exactly those further bytes unread *)
@@ -71,6 +71,20 @@ Theorem C14_stable_state : forall rs s, state_wf_rs rs s = true ->
   | _ => False end.
 Proof. intros rs. exact (stable_from_rt (dec_state rs) enc_state _ (dec_state_rt rs)). Qed.
 Print Assumptions C14_stable_state.
+
+(* encodings identify values: what is signed or hashed over an encoding is bound to one value *)
+Theorem C14_envelope_encoding_injective : forall rs a b,
+  envelope_wf rs a = true -> envelope_wf rs b = true -> enc_envelope a = enc_envelope b -> a = b.
+Proof. exact enc_envelope_inj. Qed.
+Print Assumptions C14_envelope_encoding_injective.
+Theorem C14_params_encoding_injective : forall rs a b,
+  params_wf rs a = true -> params_wf rs b = true -> enc_params a = enc_params b -> a = b.
+Proof. exact enc_params_inj. Qed.
+Print Assumptions C14_params_encoding_injective.
+Theorem C14_tx_encoding_injective : forall rs a b,
+  tx_wf rs a = true -> tx_wf rs b = true -> enc_tx a = enc_tx b -> a = b.
+Proof. exact enc_tx_inj. Qed.
+Print Assumptions C14_tx_encoding_injective.
 
 (* non-vacuity *)
 Definition ex_env : envelope :=
